@@ -409,6 +409,42 @@ thread_local! {
     /// allocations made by this thread through the global allocator, outside the shadow heap's own bookkeeping
     static GLOBAL_ALLOCS: std::cell::Cell<u64> = const { std::cell::Cell::new(0) };
     static IN_HOOK: std::cell::Cell<bool> = const { std::cell::Cell::new(false) };
+    /// when armed: the n-th (0-based) global-allocator request of this thread from now on is refused
+    static GLOBAL_FAIL_IN: std::cell::Cell<u64> = const { std::cell::Cell::new(u64::MAX) };
+}
+
+/// Arms a refusal of the k-th global-allocator request made by this thread (outside the shadow heap) from now on.
+/// Only used around calls during which the harness itself allocates nothing.
+pub fn arm_global_refusal(k: u64) {
+    GLOBAL_FAIL_IN.with(|c| c.set(k));
+}
+pub fn disarm_global_refusal() -> bool {
+    GLOBAL_FAIL_IN.with(|c| {
+        let fired = c.get() == u64::MAX - 1;
+        c.set(u64::MAX);
+        fired
+    })
+}
+
+fn global_refusal_due() -> bool {
+    let in_hook = IN_HOOK.try_with(|h| h.get()).unwrap_or(true);
+    if in_hook {
+        return false;
+    }
+    GLOBAL_FAIL_IN
+        .try_with(|c| {
+            let v = c.get();
+            if v >= u64::MAX - 1 {
+                false
+            } else if v == 0 {
+                c.set(u64::MAX - 1);
+                true
+            } else {
+                c.set(v - 1);
+                false
+            }
+        })
+        .unwrap_or(false)
 }
 
 /// Counting global allocator (System underneath): lets a check see allocations the crate makes *outside* its
@@ -418,6 +454,9 @@ pub struct CountingAlloc;
 
 unsafe impl GlobalAlloc for CountingAlloc {
     unsafe fn alloc(&self, layout: Layout) -> *mut u8 {
+        if global_refusal_due() {
+            return std::ptr::null_mut();
+        }
         let _ = IN_HOOK.try_with(|h| {
             if !h.get() {
                 let _ = GLOBAL_ALLOCS.try_with(|c| c.set(c.get() + 1));
@@ -429,6 +468,9 @@ unsafe impl GlobalAlloc for CountingAlloc {
         unsafe { System.dealloc(ptr, layout) }
     }
     unsafe fn realloc(&self, ptr: *mut u8, layout: Layout, new_size: usize) -> *mut u8 {
+        if global_refusal_due() {
+            return std::ptr::null_mut();
+        }
         let _ = IN_HOOK.try_with(|h| {
             if !h.get() {
                 let _ = GLOBAL_ALLOCS.try_with(|c| c.set(c.get() + 1));
